@@ -210,17 +210,12 @@ def r6_partial_conversion(ctx):
             okb = blk.idx
     if okb is None:
         return [violated("C12.R6", "try_into:partial-ok", b.where(), "Ok((handle, Some(remaining))) construction not found")]
-    # the i32 switch leading to it
-    errnos = set()
-    for blk in b.blocks:
-        if blk.cleanup or blk.term.kind != "switch" or blk.term.raw["dty"] != "i32":
-            continue
-        for e in cfg.succ.get(blk.idx, []):
-            if okb in cfg.edge_targets_reachable([e]):
-                errnos.add(e.label[1])
-    # any path to okb must pass an i32 switch
-    sw = [blk.idx for blk in b.blocks if not blk.cleanup and blk.term.kind == "switch" and blk.term.raw["dty"] == "i32"]
-    bypass = okb in cfg.reachable(cfg.entry, cut_nodes=sw)
+    # which errno values lead to it (switch arms and equality tests alike)
+    from ..cut import errno_branches
+    brs = errno_branches(b, ctx.tracer)
+    errnos = {br["errno"] for br in brs if okb in cfg.edge_targets_reachable(br["eq"])}
+    # reaching it at all requires passing one of those "equal" edges
+    bypass = okb in cfg.reachable(cfg.entry, cut_edges=[e.key() for br in brs for e in br["eq"]])
     if errnos == {ENOENT} and not bypass:
         out.append(holds("C12.R6", "try_into:partial-ok", b.where(), "Partial -> (handle, Some(remaining)) only for ENOENT"))
     else:
